@@ -32,7 +32,7 @@ CORPUS = os.path.join(C.ROOT, "corpus", "C08")
 
 BOUNDS = (f"resource bound of G (measured by harness-side counters, inputs above it are counted as out-of-domain and not judged): "
           f"<= {c08run.MAX_STMTS} statements compiled counting .repeat/.include multiplicity, "
-          f"shift counts <= {c08run.MAX_SHIFT} bits, integers <= 2^{c08run.MAX_BITS.bit_length() - 1} bits, "
+          f"integers <= 2^{c08run.MAX_BITS.bit_length() - 1} bits (products; shift counts are no longer bounded by the harness: the assembler refuses counts > 2**16 itself), "
           f"<= {c08run.MAX_OPERATORS} operators per expression; counts, sizes, alignments, addresses and include graphs are unbounded "
           f"(the assembler must refuse absurd ones itself); workers run under RLIMIT_AS = 2 GB")
 RULE = ("(proof part) wait-model cases: seeded random graphs of 1-12 deferred objects (settled to an int / settled to another object / "
@@ -59,7 +59,7 @@ LEVEL_TEXT = ("PARTIAL by nature. Proved in Coq (all closed under the global con
               "Gen files / pinned source shapes and by model-vs-implementation runs on random graphs. NOT proved: the parser and the statement compiler as a whole; "
               "for 'any source text' the check only searches (generated texts on the real code under a watchdog), which is exploration, reported separately.")
 LEVEL_NOTE = ("Trusted: Coq kernel + vm_compute; translator plug-ins gen_partial/gen_operators/gen_meta and their reading of Python; the harness (impl.py, c08run.py: "
-              "watchdog, in-memory files, domain counters patched around Compiler.compile_block/.repeat/.align/shift operators/parser.expression); c08gen.py decides "
+              "watchdog, in-memory files, domain counters patched around Compiler.compile_block / the product operator / parser.expression); c08gen.py decides "
               "what is explored. Theorems named *_partial say in a comment what is missing.")
 TECHNIQUE = "Coq proof of a fuelled model of lazy evaluation and of guarded partial operations + model/implementation correspondence; grammar-directed search with fault planting and mutation on the real code"
 TRUSTED = ["tools/c08run.py domain counters (monkey-patched wrappers, nothing in /repo changed)", "tools/c08gen.py (which inputs are explored)",
